@@ -43,7 +43,8 @@ def run_flex(flexdir, ltext, args, want=("scanner",), faults=None, env=None, cwd
         elif m == "nodir": paths[k] = os.path.join(wd, "no", "such", "dir", "f")
     cmd = [os.path.join(flexdir, "flex")] + list(args)
     if "scanner" in want:
-        cmd += ["-t"] if stdout_scanner else ["-o", paths["scanner"]]
+        # "named": the idiom of flex's own Makefile, '-o NAME -t >file' (output to stdout, NAME in the #line directives)
+        cmd += ["-o", paths["scanner"], "-t"] if stdout_scanner == "named" else ["-t"] if stdout_scanner else ["-o", paths["scanner"]]
     if "header" in want: cmd += ["--header-file=" + paths["header"]]
     if "tables" in want: cmd += ["--tables-file=" + paths["tables"]]
     if "backup" in want: cmd += ["-b", "--backup-file=" + paths["backup"]]
